@@ -190,6 +190,19 @@ def run_case(cs):
         files = sorted(k for k, v in world.read_tree(root).items() if v is not None and "/.DS_Store" not in "/" + k)
         dirs = sorted(k for k, v in world.read_tree(root).items() if v is None)
         kind = rng.choice(["create", "create", "create", "sf", "sf", "edit", "flatten", "dr"])
+        if step > 0 and rng.random() < 0.06:
+            # a chain file as another implementation may have written it: the sequencenr attribute is optional in the XSD
+            import re as _re
+
+            for h in world.find_histories(root):
+                cp = os.path.join(root, "" if h == "." else h, "ascmhl", "ascmhl_chain.xml")
+                if os.path.isfile(cp) and rng.random() < 0.7:
+                    with open(cp, "rb") as f:
+                        cb = f.read()
+                    with open(cp, "wb") as f:
+                        f.write(_re.sub(rb' sequencenr="[0-9]+"', b"", cb))
+            steps.append("chains without sequencenr")
+            cs.count("chain_files_without_optional_sequencenr")
         b = [snap.snap(root, with_mtime=False), snap.snap(dest, with_mtime=False) if os.path.isdir(dest) else {}]
         ctx = {"overlap": False}
         if kind == "edit":
